@@ -5,7 +5,9 @@ TRUSTED = ['Coq 8.16.1 kernel + vm_compute', 'translator/fragments.py + translat
 PERRUN = ['C14.v']
 GEN = ('Gen_util', 'Gen_solver', 'Gen_tables')
 LEVEL = 'other'
-EXPLANATION = 'obligations: translation of the anchored functions + theorems listed in coverage.theorems; the remaining clauses are validated by the oracle sweep only'
+EXPLANATION = ('proved on regenerated code: both direction generators end with an exact clip [all binary64]; the decision logic of the coordinate initialisation '
+               '(boundary tests, first and second step, clip) puts both points of every coordinate inside the box, between 0.01 and 2 rhobeg from x0 and apart from each other [exact reals]. '
+               'validated by the oracle sweep only: off-diagonal points, affine independence, conditioning < 1e4, lengths of generated directions')
 
 
 def run(ctx):
